@@ -156,25 +156,36 @@ func TestE1Transport(t *testing.T) {
 		var rterm uint64
 		var err error
 		kind := []string{"AE", "RV", "IS"}[(i/5/len(peers))%3]
-		switch kind {
-		case "AE":
-			var r raft.AppendEntriesResponse
-			r, err = a.SendAppendEntries(p.addr, raft.AppendEntriesRequest{LeaderID: tag, Term: term})
-			rterm = r.Term
-		case "RV":
-			var r raft.RequestVoteResponse
-			r, err = a.SendRequestVote(p.addr, raft.RequestVoteRequest{CandidateID: tag, Term: term})
-			rterm = r.Term
-		default:
-			var r raft.InstallSnapshotResponse
-			r, err = a.SendInstallSnapshot(p.addr, raft.InstallSnapshotRequest{LeaderID: tag, Term: term, Bytes: []byte("xyz")})
-			rterm = r.Term
+		// a first connection to a peer may take a moment on a loaded machine: non-delivery is only reported
+		// after several attempts (a request that arrives at the wrong peer is reported at once)
+		for try := 0; try < 20; try++ {
+			switch kind {
+			case "AE":
+				var r raft.AppendEntriesResponse
+				r, err = a.SendAppendEntries(p.addr, raft.AppendEntriesRequest{LeaderID: tag, Term: term})
+				rterm = r.Term
+			case "RV":
+				var r raft.RequestVoteResponse
+				r, err = a.SendRequestVote(p.addr, raft.RequestVoteRequest{CandidateID: tag, Term: term})
+				rterm = r.Term
+			default:
+				var r raft.InstallSnapshotResponse
+				r, err = a.SendInstallSnapshot(p.addr, raft.InstallSnapshotRequest{LeaderID: tag, Term: term, Bytes: []byte("xyz")})
+				rterm = r.Term
+			}
+			mu.Lock()
+			elsewhere := gotAE.LeaderID == tag || gotRV.CandidateID == tag || gotIS.LeaderID == tag
+			mu.Unlock()
+			if err == nil || elsewhere {
+				break
+			}
+			time.Sleep(50 * time.Millisecond)
 		}
 		line := fmt.Sprintf("ADDRESSEE | %s sent by a to peer %s at %s (b is at %s)", kind, p.name, p.addr, baddr)
 		rep.Case(fmt.Sprintf("%s #%d", line, i), err == nil)
 		rep.Hit("addressee-" + p.name + "-" + kind)
 		mu.Lock()
-		arrived := p.seen == before+1 && p.last == tag
+		arrived := p.seen > before && p.last == tag
 		atB := gotAE.LeaderID == tag || gotRV.CandidateID == tag || gotIS.LeaderID == tag
 		mu.Unlock()
 		if err != nil && !atB {
